@@ -47,4 +47,23 @@ structure ReadsAs (num : String → Option Rat) (parseNat : String → Option Na
   direction : e.undirected = true ↔
     (∃ d, c.directed = some d ∧ d ≠ "true") ∨ (c.directed = none ∧ edgedefault = some "undirected")
 
+/-! ### well-formed documents (for the non-refusal theorem), in terms of the document only -/
+
+/-- a `key` element that is read without error: it has an id and its `<default>` texts are of its type -/
+def KeyOk (num : String → Option Rat) (k : Key) : Prop :=
+  k.id.isSome = true ∧ ∀ t ∈ k.defaults, ∃ v, convert num (ptypeOf k.typeD) t = .ok v
+
+/-- what `keys[id]` holds for a key that is not the weight key -/
+def regKey (k : Key) : OtherKey := ⟨k.id.getD "", k.nameD, ptypeOf k.typeD, k.forD⟩
+
+/-- the registered keys of a document: those that are not the weight key, in order -/
+def registered (weightKey : String) (keys : List Key) : List OtherKey :=
+  (keys.filter fun k => !isWeightKey weightKey k).map regKey
+
+/-- a `<data key=k>text</data>` child of an element of kind `kind` ("node" / "edge") that is stored without
+    error: `k` is a registered key, and every registered key of that id is declared for that kind of element
+    (or for all) and the text is of its type -/
+def DataOk (num : String → Option Rat) (reg : List OtherKey) (kind : String) (d : String × String) : Prop :=
+  (∃ o ∈ reg, o.id = d.1) ∧ ∀ o ∈ reg, o.id = d.1 → holds o.for_ kind = true ∧ ∃ v, convert num o.ptype d.2 = .ok v
+
 end SkNet.GraphML
